@@ -29,6 +29,34 @@ struct SvdAdaptor : ISvd
     void matrix_V(Snapshot& out, long k) override { fill(out, s.matrix_V((Eigen::Index) k)); }
 };
 
+// C20: a PartialSVDSolver driven through the generic solver interface of a simulated task (compute = compute(maxit, tol);
+// values = singular values; vectors = [U; V] stacked). No seam: yield points are API boundaries and basic-block edges.
+struct SvdAsSolver : ISolver
+{
+    std::unique_ptr<ISvd> svd;
+    long ncomp;
+    SvdAsSolver(std::unique_ptr<ISvd> s, long k) : svd(std::move(s)), ncomp(k) {}
+    void init0() override {}
+    void initv(const VecL&) override {}
+    long compute(int, long maxit, long double tol, int) override { return svd->compute(maxit, tol); }
+    int info() const override { return 0; }
+    long niter() const override { return 0; }
+    long nops() const override { return 0; }
+    void values(Snapshot& out) const override { svd->singular_values(out); }
+    void vectors(Snapshot& out, long nvec) const override
+    {
+        Snapshot u, v;
+        const long k = nvec < 0 ? ncomp : nvec;
+        svd->matrix_U(u, k);
+        svd->matrix_V(v, k);
+        out.vrows = u.vrows + v.vrows;
+        out.vcols = u.vcols;
+        out.vec_bytes = u.vec_bytes;
+        out.vec_bytes.insert(out.vec_bytes.end(), v.vec_bytes.begin(), v.vec_bytes.end());
+        out.vecs.resize(0, 0);
+    }
+};
+
 template <class S>
 struct WorldSvd : IWorld
 {
@@ -52,7 +80,7 @@ struct WorldSvd : IWorld
         As = to_sparse(Ad);
         Asr = As;
     }
-    std::unique_ptr<ISolver> make_solver() override { return nullptr; }
+    std::unique_ptr<ISolver> make_solver() override { return std::unique_ptr<ISolver>(new SvdAsSolver(make_svd(), spec.nev)); }
     std::unique_ptr<ISvd> make_svd() override
     {
         const bool sparse = (spec.variant & 1) != 0, rowmajor = (spec.variant & 8) != 0;
